@@ -157,6 +157,10 @@ int selftest(bool verbose)
     const Vec ev = eigvals_sym(Q * D * Q.transpose());
     check("eigvals_sym small", fabsl(ev(0) - 1e-12L), 1e-18L * 5e6L);
     check("eigvals_sym large", fabsl(ev(2) - 5e6L) / 5e6L, 1e-17L);
+    // scale invariance (tiny matrices must not stop the sweeps early)
+    const Vec evt = eigvals_sym(1e-24L * (Q * D * Q.transpose()));
+    check("eigvals_sym tiny scale small", fabsl(evt(0) / 1e-24L - 1e-12L), 1e-18L * 5e6L);
+    check("eigvals_sym tiny scale large", fabsl(evt(2) / 1e-24L - 5e6L) / 5e6L, 1e-17L);
   }
   // jets
   {
